@@ -367,6 +367,10 @@ func (w *ckksWorld) knownClass(s ckksSpec) string {
 		return "C07/ckks/embed/sparse-and-not-NTT" // rlwe.NTTSparseAndMontgomery, IsNTT=false branch
 	case w.cf.rt == ring.ConjugateInvariant && n == 1 && !full:
 		return "C07/ckks/embed/conjugate-invariant-single-slot"
+	case w.prec > 53 && !s.ntt:
+		// ComplexArbitraryToFixedPointCRT stores value+q (in [q,2q)) for negative values; without the NTT nothing
+		// reduces them and the level-0 decoder (which compares against q/2 in uint64 arithmetic) returns garbage
+		return "C07/ckks/arbitrary/not-NTT-unreduced-residues"
 	}
 	return ""
 }
@@ -651,6 +655,20 @@ func ckksCoeffScenario(cf ckksConf) engine.Scenario {
 		}
 		for outTy := 0; outTy < 4; outTy++ {
 			out := newOutput(outTy, w.N)
+			// big outputs are pre-allocated with 256 bits: when the decoder allocates them itself it uses
+			// new(big.Float).SetInt(..) (64-bit mantissa for these sizes), which would cap the precision of the
+			// arbitrary path at 2^-64 (FINDINGS.md, observation); with caller-provided precision the quotient
+			// must be accurate to the working precision.
+			switch o := out.(type) {
+			case []*big.Float:
+				for i := range o {
+					o[i] = new(big.Float).SetPrec(256)
+				}
+			case []*bignum.Complex:
+				for i := range o {
+					o[i] = &bignum.Complex{new(big.Float).SetPrec(256), new(big.Float).SetPrec(256)}
+				}
+			}
 			err, pan := uni.Try(func() error { return w.ecd.Decode(pt, out) })
 			if pan != nil || err != nil {
 				failD(c, sig+"/decode-failed", "%s out=%s: err=%v panic=%v", desc, tyNames[outTy], err, pan)
